@@ -94,7 +94,9 @@ func (g *Circle) Contains(obj Object) bool {
 	case *SimplePoint:
 		return g.containsPoint(other.Center())
 	case *Circle:
-		return other.Distance(g) < (other.meters + g.meters)
+		// every point of other is within g: centre distance + radius of other
+		inner, outer := math.Max(other.meters, 0), math.Max(g.meters, 0)
+		return geoDistancePoints(other.center, g.center)+inner <= outer
 	case Collection:
 		for _, p := range other.Children() {
 			if !g.Contains(p) {
